@@ -12,5 +12,5 @@ if ! (cd "$D" && patch -p1 --no-backup-if-mismatch --dry-run < "$PATCH" >/dev/nu
   OLDBASE=1
 fi
 (cd "$D" && patch -p1 --no-backup-if-mismatch < "$PATCH" >/dev/null) || { echo "patch failed"; rm -rf "$D"; exit 3; }
-QV_EVIDENCE_DIR="$D/evidence" python3 /verif/qv.py all --repo "$D" 2>&1 | grep -E "violated:|CHECK-ERROR|quick:.* [1-9][0-9]* violated" | { if [ -n "${OLDBASE:-}" ]; then grep -v "one-index-space\|one-injection\|^C06 quick"; else cat; fi; } | cut -c1-420   # 864fa33 itself has the F17 defect those two sites report
+QV_EVIDENCE_DIR="$D/evidence" python3 /verif/qv.py all --repo "$D" 2>&1 | grep -E "violated:|CHECK-ERROR|quick:.* [1-9][0-9]* violated" | { if [ -n "${OLDBASE:-}" ]; then grep -v "one-index-space\|one-injection\|^C06 quick\|partial_type~delimited\|^C18 quick"; else cat; fi; } | cut -c1-420   # 864fa33 itself has the F16/F17 defects those sites report
 rm -rf "$D"
